@@ -368,6 +368,9 @@ FieldViol(d, obs, known) ==
          ELSE IF devOk(LAMBDA a : IF "xs" \in DOMAIN a THEN obs \in a.xs ELSE obs = a.x) THEN {}
          ELSE IF d.kind = "opt" /\ (\E x \in d.vals : (Len(x) = 0) # (Len(obs) = 0))
               THEN {<<"C11", d.name, "presence">>}
+              \* the communication state is made of fixed-position integers (slot parameters): a wrong
+              \* value there contradicts C04 as well as C16
+              ELSE IF d.prop = "C16" THEN {<<"C16", d.name, "value">>, <<"C04", d.name, "value">>}
               ELSE {<<d.prop, d.name, "value">>}
     ELSE IF d.kind = "f"
     THEN IF IsInt(obs) /\ Close(obs, d.raw, d.P, d.Q) THEN {} ELSE {<<"C10", d.name, "value">>}
